@@ -111,7 +111,7 @@ func offRun(in []byte) (interface{}, error) {
 			idleAt = append(idleAt, p)
 		}
 	}
-	runid := "ffeeddccbbaa00112233445566778899aabbccdd"
+	runid := "FFeeddccbbaa00112233445566778899aabbCCDD" // (mixed case: an id is an opaque token)
 	src := fakesrc.New(fakesrc.Script{RunID: runid, Offset: cfg.Start, RDB: rdbBytes, Stream: stream, Frags: cfg.Frags, PauseUs: 200,
 		DropAt: dropAt, RefuseNext: cfg.Refuse, IdleAt: idleAt, IdleMs: cfg.IdleMs}, func(e fakesrc.Event) {
 		off := e.Off
